@@ -182,16 +182,18 @@ def ReadMem.parse := parseDataScd
 def ReadMemStacked.parse := parseDataScd
 
 /-- `WriteMem::parse` (returns `length`) and `Pending::parse` (returns the timeout in
-ms; `Duration::from_millis(u16)` cannot fail): `reserved u16 == 0`, then a `u16`. -/
-def parseReservedU16 (buf : Bytes) : R Nat := do
+ms; `Duration::from_millis(u16)` cannot fail): `scd_len >= 4`, `reserved u16 == 0`, then a
+`u16`. -/
+def parseReservedU16 (buf : Bytes) (ccd : AckCcd) : R Nat :=
+  if ccd.scdLen < 4 then .err .invalidPacket else do
   let c : Cursor := ⟨buf, 0⟩
   let (reserved, c) ← c.readLE 2
   if reserved ≠ 0 then .err .invalidPacket else
   let (v, _) ← c.readLE 2
   pure v
 
-def WriteMem.parse (buf : Bytes) (_ccd : AckCcd) : R Nat := parseReservedU16 buf
-def Pending.parse (buf : Bytes) (_ccd : AckCcd) : R Nat := parseReservedU16 buf
+def WriteMem.parse (buf : Bytes) (ccd : AckCcd) : R Nat := parseReservedU16 buf ccd
+def Pending.parse (buf : Bytes) (ccd : AckCcd) : R Nat := parseReservedU16 buf ccd
 
 /-- The `while to_read > 0` loop of `WriteMemStacked::parse`.  Every iteration that
 does not return consumes 4 bytes of the cursor, so `fuel = buf.len() + 1` suffices. -/
